@@ -22,11 +22,12 @@
      - the differential run (harness/props/c13) on every check;
      - the regenerated kernels: C13_generated_* below (an edit of ConvertAltitudekeyToMinMaxZ, extendedSpatialIDCheckZoom,
        HorizontalZoomMinMax / VerticalZoom in /repo breaks these obligations);
-     - int64: C13_range_computation_is_exact_on_domain covers ONLY the per-tile range computation (ConvertAltitudekeyToMinMaxZ: zooms 0..35,
-       0 <= E <= 35, |O| <= 2^50). The extended variant copies x, y unchanged, so it is the code for every int64 x, y. The spatial variant
-       multiplies x, y, f by 2^d in int64: the model is claimed to be the code only for footprints of the grid (0 <= x, y < 2^hZoom, where
-       every product stays below 2^36); outside, int64 wraps (tile (0, 2^62, 0, 25, 0), E 25, O 0, outV 2: Go returns x = 0..3) and the
-       dispatcher answers bad_case.
+     - int64: theorems over the kernels regenerated with Go's int64 semantics (Generated64): C13_int64_tile_range_meets_spec (the per-tile
+       range: zooms 0..35, 0 <= E <= 35, |O| <= 2^50), C13_int64_zoom_check_is_the_model, C13_int64_expansion_kernels_fit_on_results (the
+       expansion arithmetic of the spatial variant for 0 <= x, y < 2^hZoom) and C13_int64_expansion_wraps_outside_the_grid (x = 2^62: the
+       int64 kernel wraps; outside the grid the spatial variant is not claimed and the dispatcher answers bad_case). The extended variant
+       copies x, y unchanged, so it is the code for every int64 x, y. Still assumed, not proved: the Go loops, map and slices around the
+       kernels (`for z := zMin; z <= zMax; z++`, the nested loops of the expansion, strconv) behave as Base.zrange / flat_map / Str.print.
      - "no partial result on error" is not a theorem (the model's Err carries no payload): it is checked on every run (DC13.obs_list).
      - C13_spatial_variant_is_the_expansion, C13_single_tile_is_exactly_the_range, C13_empty_request hold by unfolding the model's definition
        (the Go body of ConvertTileXYZsToSpatialIDs is literally that composition); the content of the spatial clause is in the C10 theorems
@@ -443,6 +444,47 @@ Print Assumptions C13_tile_zoom_domain_is_the_conversion_window.
 Theorem C13_tile_zoom_test_is_the_generated_window : forall z, tile_zoom_ok z = (0 <=? z) && (z <=? Generated.MaxTileXYZZoom).
 Proof. exact TileGen.tile_zoom_ok_generated. Qed.
 Print Assumptions C13_tile_zoom_test_is_the_generated_window.
+
+(* ---- INT64: the kernels regenerated from /repo with Go's int64 semantics explicit (generated/Generated64.v; Some (r, true) = returns r and no
+        intermediate left the int64 range, None = panic). What used to be the assumption "int64 = Z on the domain" for the kernels: ---- *)
+From SIDGen Require Generated64.
+From SID Require I64.
+Theorem C13_int64_zoom_check_is_the_model : forall h v, Generated64.extendedSpatialIDCheckZoom h v = I64.ret (ext_check_zoom h v).
+Proof. exact TileGen.generated64_zoom_check. Qed.
+Print Assumptions C13_int64_zoom_check_is_the_model.
+
+(* the per-tile range as executed: on the domain it neither panics nor wraps and returns C13's specification (error exactly when the tile
+   does not fit; otherwise the metre-widened cover of the tile's altitude interval) *)
+Theorem C13_int64_tile_range_meets_spec : forall h x y v z t E O outV, new_tile h x y v z = Ok t -> 0 <= outV <= 35 ->
+  0 <= E <= 35 -> - 2 ^ 50 <= O <= 2 ^ 50 ->
+  exists r, Generated64.ConvertAltitudekeyToMinMaxZ (tz t) (tv t) outV E O = Some (GenTac.enc_zz r, true) /\
+    match r with
+    | Ok (mn, mx) => tile_fits E O outV t /\ mn = wid_min (sid_scale outV) (tile_lo E O t) /\ mx = wid_max (sid_scale outV) (tile_hi E O t)
+    | Err => ~ tile_fits E O outV t
+    end.
+Proof. exact TileGen.generated64_tile_range_spec. Qed.
+Print Assumptions C13_int64_tile_range_meets_spec.
+
+Theorem C13_int64_tile_range_never_panics : forall k kz out E O, - 2 ^ 62 <= E <= 2 ^ 62 ->
+  Generated64.ConvertAltitudekeyToMinMaxZ k kz out E O <> None.
+Proof. exact TileGen.generated64_tile_range_no_panic. Qed.
+Print Assumptions C13_int64_tile_range_never_panics.
+
+(* the expansion kernels of the spatial variant on every extended ID the conversion returns for tiles with x, y inside their grid *)
+Theorem C13_int64_expansion_kernels_fit_on_results : forall l E O outV r i, tiles_to_eids l E O outV = Ok r ->
+  (forall t, In t l -> footprint_ok t) -> In i r ->
+  Generated64.HorizontalZoomMinMax (eh i) (Ids.ex i) (ey i) (ev i) = Some (hzoom_minmax (eh i) (Ids.ex i) (ey i) (ev i), true) /\
+  Generated64.VerticalZoom_minmax (ev i) (ef i) (eh i) = Some (vzoom_minmax (ev i) (ef i) (eh i), true).
+Proof. exact TileGen.generated64_expansion_fits_on_results. Qed.
+Print Assumptions C13_int64_expansion_kernels_fit_on_results.
+
+(* outside the grid the int64 code wraps (evaluated on the regenerated kernel): x = 2^62 at hZoom 0 expanded to zoom 2 *)
+Theorem C13_int64_expansion_wraps_outside_the_grid :
+  Generated64.HorizontalZoomMinMax 0 (2 ^ 62) 0 2 = Some ((0, 0, 3, 3), false) /\
+  Generated.HorizontalZoomMinMax 0 (2 ^ 62) 0 2 = (2 ^ 64, 0, 2 ^ 64 + 3, 3) /\
+  tiles_to_eids [mkt 0 (2 ^ 62) 0 25 0] 25 0 2 = Ok [mk 0 (2 ^ 62) 0 2 0].
+Proof. exact TileGen.generated64_expansion_wraps_outside_the_grid. Qed.
+Print Assumptions C13_int64_expansion_wraps_outside_the_grid.
 
 (* ---- the zoom window observed through the hook VerifExtendedSpatialIDCheckZoom: the checker says "true exactly on 0..35 x 0..35" ---- *)
 Theorem C13_zoom_window_checker : forall h v b, zoom_window_b h v b = true <-> (b = true <-> 0 <= h <= 35 /\ 0 <= v <= 35).
